@@ -72,6 +72,10 @@ FAMILIES = {
 }
 
 
+# constants of C19.cursor_steps_text (lean/MsqProofs/Props/C19P.lean): cursor operations ≤ PC_A·|text| + PC_B
+PC_A, PC_B = 10 ** 9, 10 ** 9
+
+
 def micros(ans):
     """a TIME answer in microseconds; a request the worker had to abandon after its 5 s alarm counts as 5 s"""
     return int(ans.split(" ")[1]) if ans.startswith("OK ") else 5000000
@@ -88,7 +92,7 @@ def run(ctx):
                        "long literals, nesting, and near-misses that fail late) at sizes n, 2n, 4n, 8n: deterministic counters observed by wrapping FSMMachine.handle, every TokenScanner "
                        "method and the token list of every cursor from outside — handle calls, cursor-method calls, token-list element reads (a slice or iteration of k elements counts k), Python-level calls inside the library (sys.setprofile: total work, e.g. rebuilt nodes), largest backward move of a cursor — must at most double (+ a constant) when the input doubles, and no "
                        "cursor may move backwards; wall-clock growth exponent (best of several repeats) must stay below 1.6, confirmed three times before it counts" % len(FAMILIES))
-    ctx.assumptions += ["seconds are not modelled; timing is judged only through the growth exponent with repeated confirmation", "the parser's cursor-operation bound is validated by measurement, not proved"]
+    ctx.assumptions += ["seconds are not modelled; timing is judged only through the growth exponent with repeated confirmation", "the cost model counts what the harness can observe from outside: calls of TokenScanner methods and the children a comma split walks over; work inside AMT node methods (source_equal…, upper()) is per call O(|token|) and is covered by the `calls` / time measurements only"]
     r = ctx.rng.fork("c19")
     alpha, _ = LS.alphabet()
     strs = list(LS.exhaustive(alpha, 2 if quick else 3)) + [LS.random_concat(r, 1 + r.below(20)) for _ in range(3000 if quick else 60000)]
@@ -99,6 +103,31 @@ def run(ctx):
             pre = s.replace("\r\n", "\n")
             if n > 2 * len(pre) + 1:
                 pfam.report(ctx, "handle-calls", {"kind": "input", "entry": "FSMMachine.parse", "input": s, "observed": a, "oracle": "c19: at most 2·|text|+1 handle calls", "how_found": "stream"})
+    # (a') parser: the cost model's count of cursor operations (driver command PC: TokenScanner method calls, nested ones included, plus one per child walked by a
+    # comma split) against the same count taken on the implementation from outside (tools/harness/canon_ext_pc.py) — EXACT equality, accepted and rejected texts
+    import smallscope
+    pc = [(d, t, "corpus") for d, t in pfam.corpus_statements()] + [(d, t, "regression") for d, t in pfam.regression_cases()]
+    pc += pfam.scripts(r.fork("pc"), 300 if quick else 6000, wild=0.2, mutate=0.35)
+    pc += [(d, t, "tree-first") for d, t in pfam.tree_texts(ctx.rng.fork("pc-trees"), 40 if quick else 1500)]
+    pc += [("MYSQL", mk(n), "family") for mk in FAMILIES.values() for n in ((3, 17) if quick else (3, 17, 60))]
+    for nm in ("select-clauses", "joins", "set-ops", "dml", "update-delete", "ddl-create", "ddl-alter"):
+        entry, alpha, n_thorough, n_quick = smallscope.ALPHABETS[nm]
+        seqs = list(smallscope.sequences(alpha, 3 if quick else 4))
+        pc += [(dd, t, "small-scope") for t in (seqs if not quick else r.fork("pc-" + nm).shuffle(seqs)[:400]) for dd in ("MYSQL", "HIVE")[:1 if quick else 2]]
+    seen_pc = set()
+    pc = [x for x in pc if not ((x[0], x[1]) in seen_pc or seen_pc.add((x[0], x[1])))]
+    res, _ = ctx.corr(["PC %s %s" % (d, E.enhex(t)) for d, t, _ in pc], stream="cursor-operations", nontrivial=lambda q, a: a.startswith("OK") or a.startswith("REJ"))
+    worst = 0.0
+    for (d, t, kind), (_, a, _) in zip(pc, res):
+        ctx.count("cursor-operations:%s:%s" % (kind, a.split(" ")[0]))
+        if a.startswith(("OK ", "REJ ")):
+            n_ops = int(a.split(" ")[1])
+            worst = max(worst, n_ops / max(1, len(t)))
+            # the proved bound, on the implementation's own count: cursor operations ≤ A·|text| + B (C19.total_steps_linear; A, B below are the theorem's constants)
+            if n_ops > PC_A * len(t) + PC_B:
+                pfam.report(ctx, "cursor-operations-bound", {"kind": "input", "entry": "parse_statements", "dialect": d, "input": t, "observed": a,
+                                                             "oracle": "c19: at most %d·|text| + %d cursor operations" % (PC_A, PC_B), "how_found": "stream"})
+    ctx.cov["cursor_operations_per_character_max"] = round(worst, 2)
     base = 40 if quick else 100
     sizes = [base, 2 * base, 4 * base, 8 * base]
     reqs, meta = [], []
